@@ -277,7 +277,9 @@ class Gen:
                  relativedelta(days=1), relativedelta(months=-5, days=-2), relativedelta(seconds=30),
                  relativedelta(years=10000), relativedelta(microseconds=1), relativedelta(years=-1), relativedelta(months=11),
                  relativedelta(hours=23, minutes=59), relativedelta(seconds=-59, microseconds=-999999),
-                 relativedelta(days=400, hours=25)]
+                 relativedelta(days=400, hours=25), relativedelta(hours=1.5), relativedelta(days=0.5, minutes=2.25),
+                 relativedelta(seconds=-1, microseconds=-500000), relativedelta(microseconds=-500000),
+                 relativedelta(minutes=90, seconds=3600)]
             return c + ([] if "zero_duration" in av else [relativedelta()])
         if t is datetime.datetime:
             return [datetime.datetime(Y[i % 4], 1 + i % 12, 1 + (i * 7) % 28, i % 24, (i * 13) % 60, (i * 17) % 60,
@@ -305,7 +307,8 @@ class Gen:
         if t is dt.HexBinary:
             return [dt.HexBinary(b) for b in ([] if "empty_strings" in av else [b""]) + [b"\x00\xff", b"abc"]]
         if t is dt.Float:
-            return [dt.Float(x) for x in (0.0, 1.5, -2.25, 1e30, -0.0)]
+            return [dt.Float(x) for x in (0.0, 1.5, -2.25, 1e30, -0.0, 1 / 3, 0.1 + 0.2, 3.141592653589793, 3.4028234663852886e38,
+                                          1.401298464324817e-45, 123456789.0)]
         if t is float:
             c = [0.0, -0.0, 1.5, 1e300, 5e-324, 0.1, 2.0 ** 53 + 2, -1.7976931348623157e308, 1e22, 1e-7, 123456789.125]
             return c + ([] if "nan" in av else [math.nan, math.inf, -math.inf])
@@ -317,7 +320,11 @@ class Gen:
             lo, hi = self.INT_BOUNDS[t]
             return [t(x) for x in dict.fromkeys([lo, hi, lo + 1, hi - 1] + [x for x in (0, 1, -1, 42) if lo <= x <= hi])]
         if t is dt.AnyURI:
-            return [dt.AnyURI(x) for x in ("http://example.org/a#b", "urn:x:y", "file:///tmp/a%20b", "rel/path")]
+            uris = ["http://example.org/a#b", "urn:x:y", "file:///tmp/a%20b", "rel/path"]
+            if self.strings in ("xml", "json", "all"):   # xs:anyURI is a string type: the lexical stress applies to it too
+                uris += [" http://example.org/lead", "http://example.org/trail ", "http://example.org/a  b", "urn:a\tb",
+                         "urn:a\nb", "urn:a\rb", "  "]
+            return [dt.AnyURI(x) for x in uris]
         if t is dt.NormalizedString:
             return [dt.NormalizedString(x) for x in (["a b"] if "empty_strings" in av else ["", "a b", " lead", "trail "])]
         if t is str:
